@@ -77,9 +77,12 @@ def osgbOne (x y : F64) (pn : Nat) (b : List UInt8) (c : List Char) : Verdict :=
   else if b == strOf c then
     let dx := osgbCoded sx pn - ex
     let dy := osgbCoded sy pn - ey
+    -- exactness of the offset is judged at the tile index *before* the carry of the repaired code (finding F74)
+    let hx0 := OSGB.fl (x / F64.ofInt Gen.Grid.osgb_tile)
+    let hy0 := OSGB.fl (y / F64.ofInt Gen.Grid.osgb_tile)
     if dx.natAbs > 1 || dy.natAbs > 1 then
-      .bad s!"OSGB-offset-wrap OSGB::GridReference: a negative coordinate above -2^-37 m: x - tile*(-1) rounds to the tile size, every digit wraps to 0 and the reference names the square 100 km to the west/south: got {showStr c}, containing square is {showStr e}"
-    else if (dx != 0 && !osgbOffsetExact x sx.h) || (dy != 0 && !osgbOffsetExact y sy.h) then
+      .bad s!"OSGB::GridReference: the coded square {showStr c} is not a neighbour of the containing square {showStr e} (no proved deviation class allows this)"
+    else if (dx != 0 && !osgbOffsetExact x hx0) || (dy != 0 && !osgbOffsetExact y hy0) then
       .bad s!"OSGB-offset-sliver OSGB::GridReference: tile -1, the addition x + 10^5 is rounded (by at most 2^-37 m) across a square edge: got {showStr c}, containing square is {showStr e}"
     else
       .bad s!"F2-sliver OSGB: position within half an ulp (of the scaled value) below a cell edge is coded into the next cell: got {showStr c}, containing cell is {showStr e}"
